@@ -6,6 +6,7 @@ mod common;
 mod eng_diff;
 mod eng_vec;
 mod eng_adp;
+mod eng_obs;
 
 use common::*;
 use std::path::PathBuf;
@@ -32,6 +33,8 @@ fn main() {
         "diff" => eng_diff::run(&a, &mut sink),
         "vec" => eng_vec::run(&a, &mut sink),
         "adp" => eng_adp::run(&a, &mut sink),
+        "obs" => eng_obs::run(&a, &mut sink, false),
+        "obsasync" => eng_obs::run(&a, &mut sink, true),
         e => {
             eprintln!("unknown engine {e}");
             std::process::exit(2);
